@@ -58,10 +58,15 @@ def previous_results(base_scn, status_of=lambda name: "PASS"):
     return out
 
 
-def replay_of(base_scn, tag, status_of=lambda name: "PASS", **kw):
-    """Scenario replaying a previous job of `base_scn` (same selection and workers) with the given pool contents."""
+def replay_of(base_scn, tag, status_of=lambda name: "PASS", jobs=1, **kw):
+    """Scenario replaying a previous job of `base_scn` (same selection and workers) with the given pool contents; jobs=2 spreads the
+    previous results over two replayed jobs (setup tests in the first, the rest in the second)."""
     prev = previous_results(base_scn, status_of)
-    s = base_scn.variant(f"/replay[{tag}]", params={"replay": "job1"}, previous=prev, **kw)
+    s = base_scn.variant(f"/replay[{tag}]" + (f"x{jobs}jobs" if jobs > 1 else ""), params={"replay": " ".join(f"job{i + 1}" for i in range(jobs))}, previous=prev, **kw)
+    if jobs > 1:
+        first = [r for r in prev if ".internal." in "." + r["name"] or ".original." in "." + r["name"]]
+        rest = [r for r in prev if r not in first]
+        s.previous_jobs = [first, rest] + [[] for _ in range(jobs - 2)]
     return s
 
 
